@@ -127,3 +127,37 @@ Example C08_xml_bulk_obs_example :
      (TChars [116; 65533; 117; 1; 118; 60], 1, 35); (TTag TEndTag [97] false [] false, 1, 39); (TEof, 1, 39)]%N.
 Proof. exact xex_bulk_obs. Qed.
 Print Assumptions C08_xml_bulk_obs_example.
+
+(* ------------------------------------------------------------------------------------------------------------
+   The `regular` hypothesis discharged (TokIR/BulkTerm.v, Inst/InstBulkTerm.v; see Props/C03.v
+   C03_default_mode_run_is_regular): with fuel above the explicit bound of Props/C04.v the default-mode run over the
+   chunked queue never runs out of fuel, so the exact-mode comparison holds outright - both tokenizers. *)
+From HV Require Inst.InstTermination Inst.InstTermX Inst.InstBulkTerm.
+
+Theorem C08_exact_errors_changes_only_errors_and_text_cuts_total :
+  forall ent c1 sk fuel inject chunks (m : mach hstate queue) log,
+  wfq (mq m) -> InstTermination.HtmlTI (absm qflat m) ->
+  (InstTermination.html_fuel (InstTermination.html_unread (absm qflat m) + length (concat chunks) +
+                              length chunks * (50 * length inject)) <= fuel)%nat -> (4 <= fuel)%nat ->
+  regular log ->
+  let rf := drive_chunked html_flavour false html_table html_simd ent c1 sk fuel inject chunks m log in
+  exists k, forall j,
+    let rs := drive_chunked html_flavour true html_table html_simd ent c1 sk (k + j) inject chunks m log in
+    snd rs = snd rf /\ obs (mout (fst rs)) = obs (mout (fst rf)) /\ ceq (mc (fst rs)) (mc (fst rf)) /\
+    mq (fst rs) = mq (fst rf) /\ mcons (fst rs) = mcons (fst rf).
+Proof. exact InstBulkTerm.html_bulk_chunked_obs_total. Qed.
+Print Assumptions C08_exact_errors_changes_only_errors_and_text_cuts_total.
+
+Theorem C08_xml_exact_errors_changes_only_errors_and_text_cuts_total :
+  forall simd ent c1 sk fuel inject chunks (m : mach xstate queue) log,
+  wfq (mq m) -> InstTermX.XmlTI (absm qflat m) ->
+  (InstTermX.xml_fuel (InstTermX.xml_unread (absm qflat m) + length (concat chunks) +
+                       length chunks * (50 * length inject)) <= fuel)%nat -> (4 <= fuel)%nat ->
+  regular log ->
+  let rf := drive_chunked xml_flavour false xml_table simd ent c1 sk fuel inject chunks m log in
+  exists k, forall j,
+    let rs := drive_chunked xml_flavour true xml_table simd ent c1 sk (k + j) inject chunks m log in
+    snd rs = snd rf /\ obs (mout (fst rs)) = obs (mout (fst rf)) /\ ceq (mc (fst rs)) (mc (fst rf)) /\
+    mq (fst rs) = mq (fst rf) /\ mcons (fst rs) = mcons (fst rf).
+Proof. exact InstBulkTerm.xml_bulk_chunked_obs_total. Qed.
+Print Assumptions C08_xml_exact_errors_changes_only_errors_and_text_cuts_total.
